@@ -1,8 +1,8 @@
 #!/usr/bin/env python3
-"""Regenerates /verif/MANIFEST.json from checks.json (single source of truth for the driver too)."""
+"""Regenerates /verif/MANIFEST.json from checks.d/<ID>.json (single source of truth for the driver too)."""
 import json, os, subprocess
 ROOT = os.path.dirname(os.path.dirname(os.path.abspath(__file__)))
-checks = json.load(open(os.path.join(ROOT, "checks.json")))
+checks = {f[:-5]: json.load(open(os.path.join(ROOT, "checks.d", f))) for f in sorted(os.listdir(os.path.join(ROOT, "checks.d"))) if f.endswith(".json")}
 props = [json.loads(l) for l in open(os.path.join(ROOT, "properties.jsonl"))]
 na = json.load(open(os.path.join(ROOT, "not_applicable.json"))) if os.path.exists(os.path.join(ROOT, "not_applicable.json")) else {}
 hooks_commits = subprocess.run(["git", "-C", "/repo", "log", "--format=%h", "--grep=^verif hooks"], capture_output=True, text=True).stdout.split()
